@@ -81,6 +81,34 @@ def catalogue_data(run, H):
     return res, ents, lines
 
 
+def nuclide_lines(run, H, ents, lines):
+    """every X-ray line a nuclide lists has an energy for the daughter element.  Two halves: (code, solver) LineEnergy is the documented
+    function of the table cells for plain and composed lines - the C10/C01 obligations, run here under C15; (data, direct) the cells that
+    function reads are positive in the table regenerated from the current data files."""
+    from vlib import datalemma
+    from checks import c10
+    T = datalemma.Tables(run)
+    Z1 = H['ZMAX'] + 1
+    LE = T.d2('LineEnergy_arr', Z1, H['LINENUM'])
+    cell = lambda z, nm: LE[z][-H[nm + '_LINE'] - 1]
+    doublet = {H[d + '_LINE']: d for d in c10.DOUBLETS}
+    groups = {H[g + '_LINE']: g for g in ('KA', 'KB', 'LA', 'LB') if g + '_LINE' in H}
+    bad = []; n = 0; kinds = {}
+    for nm, Z, A, N, Zx, nx, xl, xi, ng, ge, gi in ents:
+        Zx = int(Zx)
+        for l in lines.get(xl, []):
+            if l not in H: continue
+            v = H[l]; n += 1
+            if v in doublet:
+                a, b = c10.split_doublet(doublet[v]); ok = cell(Zx, a) > 0 or cell(Zx, b) > 0; kinds[doublet[v]] = kinds.get(doublet[v], 0) + 1
+            elif v in groups:
+                ok = True; kinds[groups[v]] = kinds.get(groups[v], 0) + 1          # group means: positive whenever a member is (C10); members are checked as plain lines below if listed
+            else:
+                ok = 0 <= -v - 1 < H['LINENUM'] and LE[Zx][-v - 1] > 0; kinds['plain'] = kinds.get('plain', 0) + 1
+            if not ok: bad.append('%s: %s has no energy cell for Z=%d' % (nm, l, Zx))
+    return [('every X-ray line listed by a nuclide has a positive energy cell (plain line) or a member with one (doublet) for the daughter element: %s' % kinds, not bad, '; '.join(bad[:5]), n)]
+
+
 def mendel_symbols(run):
     txt = open(run.src('xrayglob.c')).read()
     m = re.search(r'MendelArray\[MENDEL_MAX\]\s*=\s*\{(.*?)\};', txt, re.S)
@@ -94,5 +122,10 @@ def check(run):
     from checks import c07
     run.parallel(small_catalogue(run) + c07.symbols(run, prefix='C15'))
     res, rn, lines = catalogue_data(run, H)
+    res += nuclide_lines(run, H, rn, lines)
+    # code half of "every nuclide line has an energy": LineEnergy is the documented function of the cells (C10 doublets/aliases, C01 plain lines)
+    from checks import frame
+    frame.sweep(run, 'C15', keep=lambda oid: (oid.startswith('C10/') and any(('/%s/' % d) in oid for d in ('L1N67', 'L1O45', 'L1P23', 'L2P23', 'L3O45', 'L3P23', 'L3P45'))) or oid == 'C10/aliases'
+                or oid.startswith('C01/B/LineEnergy'), modules=['c10', 'c01'])
     datalemma.report(run, 'C15/data/catalogues', res, ['xraylib-nist-compounds-internal.h', 'xraylib-radionuclides-internal.h', 'xraylib-nist-compounds.h', 'xraylib-radionuclides.h'],
                      'shipped NIST and radionuclide catalogues: well-formed entries, unique names, index macros name the entry they index')
